@@ -1257,3 +1257,4 @@ MANIFEST = {
 MANIFEST["text"] += ' Also: element-wise encoded sequences are decoded in numeric index order (R10); the gzip+dill probe on raw array bytes falls back on every exception (R11).'
 MANIFEST["text"] += " R13: order-sensitive aggregates (max/min/sorted) over the digit-string element keys compare integers ('9' > '10' as strings). R6 also requires every rebinding of the array parameter in _write_ndarray to be a shape-preserving conversion (np.ascontiguousarray / atleast_nd / ravel … change the rank of a 0-d array)."
 MANIFEST["text"] += ' R12 skips private helpers nothing references (dead code decides nothing).'
+MANIFEST["text"] += " R13/R14 are coupled rules: an overwriting directory save starts from an empty store (overwrite=True on the root group, or the mode-'o' arm removes the directory); the recorded tensor requires_grad flag is exact wherever a reader restores from it."
